@@ -9,7 +9,8 @@
 (* flattened into micro events, one per render call.                                     *)
 (*                                                                                      *)
 (* M: the renderer's registers -- open = _level_to_section, hoff = _heading_offset,       *)
-(*    cur = current_node (0 = document, n = section of micro event n, -1 = a container),  *)
+(*    cur = current_node (0 = document, n = section of micro event n, -1 = a container,   *)
+(*    -2 = the temp_root_node of a match_titles directive),                               *)
 (*    saved = what current_node_context / nested_render_text restore on exit.             *)
 (* S: DeclParent -- written from the property statement only.                             *)
 EXTENDS Naturals, Integers, Sequences, FiniteSets, TLC, Json
@@ -20,12 +21,16 @@ CONSTANTS MaxLen,        \* items per document
           Kinds,         \* container kinds
           Incs,          \* include shapes: set of <<off, Ls>>
           WithPara,      \* BOOLEAN: paragraphs in the alphabet
-          DevPruneOff    \* mutant switch: deeper sections pruned with <= L+1 instead of <= L
+          DevPruneOff,   \* mutant switch: deeper sections pruned with <= L+1 instead of <= L
+          DevMatchTitles \* as-built (open finding): in the body of a directive that parses with match_titles=True
+                         \* (Sphinx's only / nested_parse_with_titles; kind "titles") a heading DOES open a section,
+                         \* attached to the open sections outside the directive; the level map is restored at its end
 
 IncsSmall == {<<0, <<1>>>>, <<1, <<1, 2>>>>, <<2, <<2, 1>>>>}
 IncsMore  == IncsSmall \cup {<<1, <<3>>>>, <<0, <<2, 2>>>>, <<3, <<1, 1>>>>}
 NoIncs    == {}
 AllKinds  == {"quote", "item", "note"}
+TitleKinds == {"quote", "note", "titles"}
 
 Items == {<<"h", L>> : L \in Levels}
          \cup {<<"c", k, L>> : k \in Kinds, L \in CLevels}
@@ -59,7 +64,7 @@ Adv == pos' = pos + 1 /\ UNCHANGED <<items, ev>>
 
 (* render_heading when current_node is the document or a section *)
 HeadingSection ==
-  /\ pos <= Len(ev) /\ E[1] = "h" /\ cur >= 0
+  /\ pos <= Len(ev) /\ E[1] = "h" /\ (cur >= 0 \/ cur = -2)
   /\ LET L  == E[2] + hoff
          pl == MaxOf({l \in DOMAIN open : l < L})           \* closest open lower level
          keep == IF DevPruneOff THEN L + 1 ELSE L
@@ -71,27 +76,30 @@ HeadingSection ==
 
 (* render_heading anywhere else: a rubric recording its level *)
 HeadingRubric ==
-  /\ pos <= Len(ev) /\ E[1] = "h" /\ cur < 0
+  /\ pos <= Len(ev) /\ E[1] = "h" /\ cur = -1
   /\ res' = Append(res, <<"rubric", E[2] + hoff>>)
   /\ Adv /\ UNCHANGED <<open, hoff, cur, saved, warns>>
 
 Para == /\ pos <= Len(ev) /\ E[1] = "p"
-        /\ res' = Append(res, <<"para", cur>>)
+        /\ res' = Append(res, <<"para", IF cur = -2 THEN -1 ELSE cur>>)
         /\ Adv /\ UNCHANGED <<open, hoff, cur, saved, warns>>
 
 (* current_node_context(container, append=True); a directive body is rendered by        *)
 (* nested_render_text with its default heading_offset = 0, a quote / list item by the    *)
 (* same render pass (offset unchanged)                                                   *)
 OpenC == /\ pos <= Len(ev) /\ E[1] = "open"
-         /\ saved' = Append(saved, <<"cur", cur, hoff>>) /\ cur' = -1
-         /\ hoff' = IF E[2] = "note" THEN 0 ELSE hoff
+         /\ IF E[2] = "titles" /\ DevMatchTitles
+            THEN saved' = Append(saved, <<"titles", cur, hoff, open>>) /\ cur' = -2     \* temp_root_node = the directive's node
+            ELSE saved' = Append(saved, <<"cur", cur, hoff>>) /\ cur' = -1
+         /\ hoff' = IF E[2] \in {"note", "titles"} THEN 0 ELSE hoff
          /\ res' = Append(res, <<"-">>)
          /\ Adv /\ UNCHANGED <<open, warns>>
 CloseC == /\ pos <= Len(ev) /\ E[1] = "close"
           /\ cur' = saved[Len(saved)][2] /\ hoff' = saved[Len(saved)][3]
           /\ saved' = SubSeq(saved, 1, Len(saved) - 1)
           /\ res' = Append(res, <<"-">>)
-          /\ Adv /\ UNCHANGED <<open, warns>>
+          /\ open' = IF saved[Len(saved)][1] = "titles" THEN saved[Len(saved)][4] ELSE open    \* _level_to_section restored
+          /\ Adv /\ UNCHANGED warns
 
 (* nested_render_text(heading_offset = off) for an include: only the offset is saved *)
 EnterInc == /\ pos <= Len(ev) /\ E[1] = "enter"
